@@ -6,6 +6,18 @@ const v2pkg = "app/core/hydra/swamp/chronicler/v2"
 
 var Checks = []CheckDef{
 	{
+		ID: "C18", Title: "At most one live in-memory instance per swamp",
+		Claim:   "preemption-bounded exploration of the real hydra.SummonSwamp / getSwamp / closeEventCallbackFunction with real in-memory swamps: (a) 3 concurrent summoners of one name, the first optionally with an already cancelled context; (b) 2 summoners while the current instance is being destroyed by a third thread (they wait in WaitForGracefulClose for the real Destroy to complete): at quiescence at most one constructed-but-not-closed instance exists, every successful summoner holds the instance the server has mapped, and every summoner with a live context succeeds",
+		Trusted: "createNewSwamp is redirected to a harness function that builds a real in-memory swamp wired to the hydra's real callbacks and counts live instances (settings/paths/chronicler are C20/C21/C01); sync.Map/Cond/Mutex/atomics/context are scheduler models; busy-wait loops are scheduled fairly (a thread polling the same non-blocking select twice without anybody else running has to give way); in (b) no timer elapses",
+		Harnesses: []HarnessDef{
+			{Pkg: "app/core/hydra", Func: "VerifC18Summon", Quick: map[string]int{"summoners": 3}, Thorough: map[string]int{"summoners": 3}, Preempt: [2]int{2, 3}, Covers: []string{"end"}, NoReplay: true},
+			{Pkg: "app/core/hydra", Func: "VerifC18SummonDestroy", Quick: map[string]int{"summoners": 2, "timersNeverFire": 1}, Thorough: map[string]int{"summoners": 2, "timersNeverFire": 1}, Preempt: [2]int{1, 2}, Covers: []string{"end"}, NoReplay: true},
+		},
+		Assumptions: []string{"preemption bound 2 (quick) / 3 (thorough); 1 / 2 in the destroy scenario", "fair scheduling of polling loops"},
+		Stubs:       []string{"(*hydra).createNewSwamp = harness function returning a real in-memory swamp", "sync/context/time = scheduler and clock models"},
+		Outside:     []string{"more than 3 concurrent summoners", "idle-close ticks (C16)", "schedules needing more preemptions"},
+	},
+	{
 		ID: "C27", Title: "Hydrex reverse index stays consistent with core data",
 		Claim:   "bounded symbolic execution of the real hydrex Save/Destroy/GetCoreData/GetIndexData against a model of the documented catalog contract of the SDK store: every sequence of up to maxCalls Save (any subset of 2 keys with SYMBOLIC values, so additions, removals and changed values all occur) and Destroy calls over 2 domains, for every map iteration order inside Save: after each call every key lookup returns exactly the domains whose current core data contains the key and every domain read returns exactly its last saved items (keys and values)",
 		Trusted: "the Hydraidego store is a harness model of the documented contract (SaveMany upserts by key, DeleteMany removes, Destroy drops, ReadMany iterates all); the SDK's reflect-based model conversion and the server are outside (C22 n/a, C06)",
@@ -182,10 +194,11 @@ var Checks = []CheckDef{
 		Outside:     []string{"more than 3 concurrent holders/waiters in the scheduled harness", "schedules needing more preemptions than the bound"},
 	},
 	{
-		Claim:   "every interleaving (within the preemption bound) of a waiter in WaitForActiveVigilsClosed with up to maxInFlight Begin/CeaseVigil operations on the real vigil: no reachable state has the waiter parked with no operation left to wake it (deadlock detector), and the waiter only returns at count zero",
+		Claim:   "every interleaving (within the preemption bound) of a waiter in WaitForActiveVigilsClosed with up to maxInFlight Begin/CeaseVigil operations on the real vigil: no reachable state has the waiter parked with no operation left to wake it (deadlock detector), and the waiter only returns at count zero; plus 3 concurrent summoners of one swamp name while the server is marked as shutting down at an arbitrary point: every summoner returns (instance or error), nobody stays parked on the per-name summoning slot",
 		Trusted: "sync.Cond model: Broadcast moves only waiters that are already parked; Destroy/WaitForGracefulClose chains at swamp level are outside this check",
 		ID:      "C17", Title: "Lifecycle waits always terminate",
 		Harnesses: []HarnessDef{
+			{Pkg: "app/core/hydra", Func: "VerifC17SummonShutdown", Quick: map[string]int{"summoners": 3}, Thorough: map[string]int{"summoners": 3}, Preempt: [2]int{2, 3}, Covers: []string{"end"}, NoReplay: true},
 			{Pkg: "app/core/hydra/swamp/vigil", Func: "VerifC17Vigil", Quick: map[string]int{"maxInFlight": 2}, Thorough: map[string]int{"maxInFlight": 3}, Preempt: [2]int{2, 3}, Covers: []string{"end"}, NoReplay: true},
 		},
 		Assumptions: []string{"Cond.Broadcast wakes only waiters already enqueued (as sync.Cond does)", "preemption-bounded schedules"},
